@@ -434,6 +434,14 @@ pub struct TcpStats {
     pub after_halfclose_filler_read: u64,
     /// ... how the streaming end's writes ended, by `std::io::ErrorKind` (recorded, not judged)
     pub after_halfclose_end_kinds: std::collections::BTreeMap<String, u64>,
+    /// slow-reader sub-matrix: scenarios whose data was verified AND in which, at the first read of
+    /// every slow reader, every writing end still had payload bytes to write (everything that can
+    /// buffer on the way was full: the writers were held back by the reader and by nothing else)
+    pub slow_reader_backed_up: u64,
+    /// ... least / most bytes one writing end had got rid of when a slow reader began to read
+    /// (0 / 0: no slow-reader scenario yet)
+    pub slow_reader_written_at_first_read_min: u64,
+    pub slow_reader_written_at_first_read_max: u64,
 }
 
 pub struct TcpOutcome {
@@ -485,6 +493,8 @@ struct Side {
     payload_written: bool,
     /// Streamer: filler bytes whose write succeeded
     filler_tx: usize,
+    /// slow reader: `tx_bytes` of every writing end of the other side at the moment of the first read
+    stall_peer_tx: Option<Vec<usize>>,
 }
 
 type Shared = Arc<Mutex<Side>>;
@@ -574,12 +584,19 @@ async fn read_then_linger<R: AsyncRead + Unpin>(r: &mut R, st: &Shared, expect: 
     }
 }
 
+/// `stall`: this end is a slow reader. It does not read for that long (its writer is not held up),
+/// then notes how far the writing ends of the other side (their states) have got, and reads.
 #[allow(clippy::too_many_arguments)]
-async fn run_side(io: BoxIo, role: Role, data: Vec<u8>, expect: usize, chunk: Chunk, st: Shared, conn: usize, dir: u8) {
+async fn run_side(io: BoxIo, role: Role, data: Vec<u8>, expect: usize, chunk: Chunk, st: Shared, conn: usize, dir: u8, stall: Option<(Duration, Vec<Shared>)>) {
     let (mut rd, mut wr) = tokio::io::split(io);
     let (eof_tx, eof_rx) = oneshot::channel::<()>();
     let st_r = st.clone();
     let reader = async move {
+        if let Some((pause, writers)) = stall {
+            tokio::time::sleep(pause).await;
+            let written: Vec<usize> = writers.iter().map(|w| lock(w).tx_bytes).collect();
+            lock(&st_r).stall_peer_tx = Some(written);
+        }
         let limit = if role == Role::Closer { Some(expect) } else { None };
         let end = if role == Role::HalfThenCloser { read_then_linger(&mut rd, &st_r, expect).await } else { read_into(&mut rd, &st_r, limit).await };
         lock(&st_r).rx_end = Some(end);
@@ -676,6 +693,40 @@ pub enum Fault {
     /// relays faithfully, half-closes included, but when the target connection is gone it goes
     /// on reading (and discarding) what the local connection sends instead of closing it
     SwallowWhenTargetGone,
+    /// relays through a queue of `LOSSY_QUEUE` reads per direction; when a queue is full (the
+    /// receiving end does not read and every buffer behind the relay is full) it stops reading that
+    /// direction, delivers what is queued and closes: the stream is cut short under back-pressure
+    TruncateWhenBackedUp,
+}
+
+/// `Fault::TruncateWhenBackedUp`: reads (of at most 8 KiB) one direction of the relay may hold
+const LOSSY_QUEUE: usize = 64;
+
+/// One direction of `Fault::TruncateWhenBackedUp`.
+async fn pump_lossy<R: AsyncRead + Unpin, W: AsyncWrite + Unpin>(mut r: R, mut w: W) {
+    let (tx, mut rx) = mpsc::channel::<Vec<u8>>(LOSSY_QUEUE);
+    let fill = async move {
+        let mut buf = vec![0u8; 8192];
+        loop {
+            match r.read(&mut buf).await {
+                Ok(0) | Err(_) => break,
+                Ok(n) => {
+                    if tx.try_send(buf[..n].to_vec()).is_err() {
+                        break;
+                    }
+                }
+            }
+        }
+    };
+    let drain = async move {
+        while let Some(b) = rx.recv().await {
+            if w.write_all(&b).await.is_err() {
+                return;
+            }
+        }
+        let _ = w.shutdown().await;
+    };
+    tokio::join!(fill, drain);
 }
 
 pub enum Mode<'a> {
@@ -742,6 +793,11 @@ async fn control_relay(l: TcpListener, target: SocketAddr, fault: Fault) {
                     };
                     tokio::join!(up, down);
                 }
+                Fault::TruncateWhenBackedUp => {
+                    let (ar, aw) = a.split();
+                    let (br, bw) = b.split();
+                    tokio::join!(pump_lossy(ar, bw), pump_lossy(br, aw));
+                }
                 Fault::CloseBothOnHalfClose => {
                     let (mut ar, mut aw) = a.split();
                     let (mut br, mut bw) = b.split();
@@ -762,7 +818,7 @@ struct EntryPoint {
 }
 
 #[allow(clippy::too_many_arguments)]
-async fn client_conn(i: usize, case: TcpCase, ep: Arc<EntryPoint>, target: SocketAddr, domain: String, client_done: Arc<AtomicBool>, st: Shared, deadline: Instant, done: mpsc::UnboundedSender<()>) {
+async fn client_conn(i: usize, case: TcpCase, ep: Arc<EntryPoint>, target: SocketAddr, domain: String, client_done: Arc<AtomicBool>, st: Shared, deadline: Instant, done: mpsc::UnboundedSender<()>, stall: Option<(Duration, Vec<Shared>)>) {
     let io: Result<BoxIo, ConnectFail> = if let Some(p) = &ep.unix {
         env::connect_unix_entry(p, &client_done, deadline).await.map(|s| Box::new(s) as BoxIo)
     } else {
@@ -806,7 +862,7 @@ async fn client_conn(i: usize, case: TcpCase, ep: Arc<EntryPoint>, target: Socke
             Order::TargetHalfThenClose => Role::Streamer,
             Order::ClientHalfThenClose => Role::HalfThenCloser,
         };
-        run_side(io, role, payload(case.c2t, i, 0), case.t2c, case.chunk, st.clone(), i, 0).await;
+        run_side(io, role, payload(case.c2t, i, 0), case.t2c, case.chunk, st.clone(), i, 0, stall).await;
     }
     let _ = done.send(());
 }
@@ -929,6 +985,9 @@ pub async fn run_tcp(mode: &Mode<'_>, case: &TcpCase, deadline_s: u64, uniq: u64
     if case.dual.is_some() && (!DUAL_ENTRIES.contains(&case.entry) || case.conc != 1) {
         return machinery(format!("{}: not a point of the matrix", case.label()));
     }
+    if !case.slow_well_formed() {
+        return machinery(format!("{}: not a point of the matrix", case.label()));
+    }
 
     // ---- dual-stack sub-matrix: the reference behaviour is observed, not written down. A direct
     // connection to (name, port), made by this process (the server runs in it), one byte each way.
@@ -1012,9 +1071,14 @@ pub async fn run_tcp(mode: &Mode<'_>, case: &TcpCase, deadline_s: u64, uniq: u64
     let spurious = Arc::new(AtomicUsize::new(0));
     let mut tasks = Vec::new();
     let held_all: Arc<Mutex<Vec<TcpStream>>> = Arc::new(Mutex::new(Vec::new()));
+    // slow-reader sub-matrix: the reading ends of the direction under test start late; they get
+    // the states of the writing ends (to note, at their first read, how far those have got)
+    let stall = |dir: SlowDir, writers: &[Shared]| case.slow.filter(|s| s.dir == dir).map(|s| (Duration::from_secs(s.stall_s), writers.to_vec()));
+    let (stall_c, stall_t) = (stall(SlowDir::Download, &tst), stall(SlowDir::Upload, &cst));
     for l in listeners.drain(..) {
         let held = held_all.clone();
         let tst2 = tst.clone();
+        let stall_t = stall_t.clone();
         let case2 = case.clone();
         let done2 = done_tx.clone();
         let accepted2 = accepted.clone();
@@ -1042,15 +1106,16 @@ pub async fn run_tcp(mode: &Mode<'_>, case: &TcpCase, deadline_s: u64, uniq: u64
                 let done3 = done2.clone();
                 let data = payload(case2.t2c, j, 1);
                 let (expect, chunk) = (case2.c2t, case2.chunk);
+                let stall_t = stall_t.clone();
                 tokio::spawn(async move {
-                    run_side(Box::new(s), role, data, expect, chunk, st, j, 1).await;
+                    run_side(Box::new(s), role, data, expect, chunk, st, j, 1, stall_t).await;
                     let _ = done3.send(());
                 });
             }
         }));
     }
     for (i, st) in cst.iter().enumerate() {
-        tasks.push(tokio::spawn(client_conn(i, case.clone(), ep.clone(), target, domain.clone(), client_done.clone(), st.clone(), deadline, done_tx.clone())));
+        tasks.push(tokio::spawn(client_conn(i, case.clone(), ep.clone(), target, domain.clone(), client_done.clone(), st.clone(), deadline, done_tx.clone(), stall_c.clone())));
     }
     drop(done_tx);
 
@@ -1150,7 +1215,12 @@ pub async fn run_tcp(mode: &Mode<'_>, case: &TcpCase, deadline_s: u64, uniq: u64
     }
 
     let lab = case.label();
-    let mut push = |key: String, desc: String, dl: bool| failures.push(Failure { key, desc: format!("{lab}: {desc}{subject_note}"), deadline: dl });
+    if case.slow.is_some() {
+        eprintln!("DEBUGSLOW {lab}: wall {:?} c.stall {:?} t.stall {:?}", t0.elapsed(), cs.iter().map(|c| c.stall_peer_tx.clone()).collect::<Vec<_>>(), ts.iter().map(|c| c.stall_peer_tx.clone()).collect::<Vec<_>>());
+    }
+    // slow-reader sub-matrix: same oracle, keys of their own
+    let key_sfx = case.slow.map_or("", |s| s.dir.key_suffix());
+    let mut push = |key: String, desc: String, dl: bool| failures.push(Failure { key: if key == "machinery" { key } else { format!("{key}{key_sfx}") }, desc: format!("{lab}: {desc}{subject_note}"), deadline: dl });
 
     // connection establishment / handshake
     let mut all_connected = true;
@@ -1338,8 +1408,21 @@ fn evaluate_data(case: &TcpCase, cs: &[Side], ts: &[Side], deadline_s: u64, stat
     let t_ended = ts.iter().all(|t| t.rx_end.is_some());
     let c_tx = cs.iter().map(|c| c.tx_bytes).min().unwrap_or(0);
     let t_tx = ts.iter().map(|t| t.tx_bytes).min().unwrap_or(0);
+    // slow-reader sub-matrix: (the slow readers, the length of the payload they wait with reading)
+    let slow_ends = case.slow.map(|s| match s.dir {
+        SlowDir::Download => (cs, case.t2c, "local connection", "target"),
+        SlowDir::Upload => (ts, case.c2t, "target connection", "client"),
+    });
+    let slow_note = match (case.slow, slow_ends) {
+        (Some(s), Some((readers, _, who, writer))) => format!(
+            "; every {who} began to read {} s after it existed, when the {writer} side had written {:?} bytes",
+            s.stall_s,
+            readers.iter().map(|r| r.stall_peer_tx.as_ref().map_or_else(|| "-".to_string(), |w| format!("{w:?}"))).collect::<Vec<_>>()
+        ),
+        _ => String::new(),
+    };
     let progress = format!(
-        "client side: rx {:?} end {:?} tx {:?}; target side: rx {:?} end {:?} tx {:?}",
+        "client side: rx {:?} end {:?} tx {:?}; target side: rx {:?} end {:?} tx {:?}{slow_note}",
         cs.iter().map(|c| c.rx.len()).collect::<Vec<_>>(),
         cs.iter().map(|c| c.rx_end.clone().unwrap_or_else(|| "-".into())).collect::<Vec<_>>(),
         cs.iter().map(|c| c.tx_bytes).collect::<Vec<_>>(),
@@ -1423,6 +1506,17 @@ fn evaluate_data(case: &TcpCase, cs: &[Side], ts: &[Side], deadline_s: u64, stat
     if ok_perm.is_some() {
         stats.conns_verified += n as u64;
         stats.bytes_verified += (n * (case.c2t + case.t2c)) as u64;
+        if let Some((readers, len, _, _)) = slow_ends {
+            // not judged: says whether the scenario was what it is meant to be
+            let noted: Vec<usize> = readers.iter().filter_map(|r| r.stall_peer_tx.as_ref()).flatten().copied().collect();
+            if readers.iter().all(|r| r.stall_peer_tx.is_some()) && noted.iter().all(|w| *w < len) {
+                stats.slow_reader_backed_up += 1;
+            }
+            if let (Some(lo), Some(hi)) = (noted.iter().min(), noted.iter().max()) {
+                stats.slow_reader_written_at_first_read_min = *lo as u64;
+                stats.slow_reader_written_at_first_read_max = *hi as u64;
+            }
+        }
     } else {
         let mut any = false;
         for (i, c) in cs.iter().enumerate() {
